@@ -248,8 +248,14 @@ def compiler_reuse_pass(rep: Reporter, sources, label: str = "compiler-reuse") -
             continue
         doc["uri"] = "u"
         n += 1
-        fresh = strip(Compiler().compile(doc))
-        again = strip(shared.compile(doc))
+        try:
+            fresh = strip(Compiler().compile(doc))
+            again = strip(shared.compile(doc))
+        except Exception as x:  # noqa: BLE001 -- an exception from compile is itself an observation
+            rep.case((label, name))
+            if rep.prop in ("C01", "C06", "C07", "C08", "C09", "C10", "C11", "C15"):
+                rep.violation({"kind": "compile-exception"}, {"engine": "reuse", "what": "Compiler.compile raised " + type(x).__name__ + ": " + str(x)[:200], "source": s})
+            continue
         rep.case((label, name))
         if fresh != again:
             own = AT.owners_pickles(fresh, again) | {"C15"}
